@@ -470,6 +470,13 @@ def configs(tier, seed):
         logits = [-20.0, -5.0, -1.0, 0.0, 1.0, 5.0, 20.0] + [T.r3(rng, -3, 3) for _ in range(4)]
         out.append((5, {"fam": "relaxdist", "dist": "logistic_bernoulli", "par": "probs", "params": probs, "K": K, "dtype": dtype}))
         out.append((5, {"fam": "relaxdist", "dist": "logistic_bernoulli", "par": "logits", "params": logits, "K": K, "dtype": dtype}))
+        if dtype == "float32":
+            # GLOBAL STATE x BOUNDARY DRAWS (round 6): float32 parameters while the default dtype is float64 - a draw
+            # that asks the generator for float64 numbers is answered with float64's own extremes (1 - 2^-53, 2^-53)
+            out.append((5, {"fam": "relaxdist", "dist": "logistic_bernoulli", "par": "probs", "params": probs, "K": K,
+                            "dtype": dtype, "default_dtype": "float64"}))
+            out.append((5, {"fam": "relaxdist", "dist": "logistic_bernoulli", "par": "logits", "params": logits, "K": K,
+                            "dtype": dtype, "default_dtype": "float64"}))
         for V in (2, 3):
             Kc = (4 if tier == "quick" else 8) if V == 2 else (2 if tier == "quick" else 4)
             pr = [[1.0 / V] * V, [0.0] + [1.0 / (V - 1)] * (V - 1), [0.98] + [0.02 / (V - 1)] * (V - 1)]
@@ -478,6 +485,9 @@ def configs(tier, seed):
             lg = [[0.0] * V, [3.0] + [-3.0] * (V - 1)] + [[T.r3(rng, -2, 2) for _ in range(V)] for _ in range(3)]
             out.append((30, {"fam": "relaxdist", "dist": "gumbel_one_hot", "par": "probs", "params": pr, "K": Kc, "dtype": dtype}))
             out.append((30, {"fam": "relaxdist", "dist": "gumbel_one_hot", "par": "logits", "params": lg, "K": Kc, "dtype": dtype}))
+            if dtype == "float32":
+                out.append((30, {"fam": "relaxdist", "dist": "gumbel_one_hot", "par": "logits", "params": lg, "K": Kc,
+                                 "dtype": dtype, "default_dtype": "float64"}))
             # masked classes: logit exactly -inf (None), one or several; probs= with several exact zeros
             mk = [[T.r3(rng, -2, 2) if (i + r) % V else None for i in range(V)] for r in range(V)]
             if V == 3:
